@@ -10,6 +10,11 @@
 //!   `u:<c>`       release c's actor, parked before `unregister`
 //!   `d:<s>:<dst>:<tag>`  client s sends a one-byte datagram to endpoint dst
 //!   `x:<id>:<c|->` `Clients::disconnect(id, Some(c)|None)`
+//!   `h`           `Clients::shutdown()` is started (as a task): every entry is taken out of the
+//!                 map and every connection in them stopped; their actors park before
+//!                 `unregister` like all others, so a later `r:` of the same endpoint followed
+//!                 by `u:` of an old connection is a STALE unregister (the connection is not
+//!                 in the endpoint's new entry)
 //!
 //! Everything runs on a current-thread tokio runtime with a paused clock that only the
 //! harness drives: `settle` returns when every task is idle, so what is compared after
@@ -48,6 +53,7 @@ enum Op {
     Unreg(u64),
     Send(u64, u64, u64),
     Disc(u64, Option<u64>),
+    Shut,
 }
 
 impl Op {
@@ -60,6 +66,7 @@ impl Op {
             Op::Unreg(c) => format!("u:{c}"),
             Op::Send(s, d, t) => format!("d:{s}:{d}:{t}"),
             Op::Disc(id, o) => format!("x:{id}:{}", o.map_or("-".into(), |c| c.to_string())),
+            Op::Shut => "h".to_string(),
         }
     }
     fn coq(&self) -> String {
@@ -71,6 +78,7 @@ impl Op {
             Op::Unreg(c) => format!("C06.OUnreg {c}"),
             Op::Send(s, d, t) => format!("C06.OSend {s} {d} {t}"),
             Op::Disc(id, o) => format!("C06.ODisc {id} {}", coq_opt(*o, |c| c.to_string())),
+            Op::Shut => "C06.OShut".to_string(),
         }
     }
     fn parse(tok: &str) -> Op {
@@ -94,6 +102,7 @@ impl Op {
             "u" => Op::Unreg(n(1)),
             "d" => Op::Send(n(1), id(2), n(3) % 256),
             "x" => Op::Disc(id(1), if p[2] == "-" { None } else { Some(n(2)) }),
+            "h" => Op::Shut,
             _ => panic!("bad op {tok}"),
         }
     }
@@ -125,7 +134,10 @@ fn generate(rng: &mut Rng, i: u64, _n: u64) -> String {
         win: None,
         deferred: false,
     };
-    let mut ops = Vec::new();
+    let mut ops: Vec<Op> = Vec::new();
+    // about a quarter of the scripts start a registry shutdown somewhere in the middle, so that
+    // reconnects and the old connections' (stale) unregisters follow it
+    let shut_at = if rng.chance(1, 4) { Some(rng.range(1, len.saturating_sub(2).max(1))) } else { None };
     let pick_id = |rng: &mut Rng| if rng.chance(2, 3) { 0 } else { rng.below(nids) };
     let new_conn = |sh: &mut Shadow, id: u64| {
         sh.eid.push(id);
@@ -152,6 +164,8 @@ fn generate(rng: &mut Rng, i: u64, _n: u64) -> String {
                     _ => Op::Insert(w),
                 }
             }
+        } else if shut_at == Some(ops.len() as u64) && n > 0 {
+            Op::Shut
         } else {
             match rng.below(20) {
                 0..=4 => Op::Reg(pick_id(rng), rng.range(1, 2)),
@@ -221,6 +235,15 @@ fn generate(rng: &mut Rng, i: u64, _n: u64) -> String {
                 }
             }
             Op::Send(..) => {}
+            Op::Shut => {
+                if sh.win.is_none() {
+                    for c in 0..sh.eid.len() {
+                        if sh.inserted[c] {
+                            sh.exiting[c] = true;
+                        }
+                    }
+                }
+            }
         }
         ops.push(op);
     }
@@ -515,6 +538,17 @@ impl World {
                 let r = self.clients.disconnect(self.ids[*id as usize], conn);
                 self.settle();
                 1 + u64::from(r)
+            }
+            Op::Shut => {
+                if self.win.is_some() {
+                    return 0;
+                }
+                // the real `Clients::shutdown`; it completes once every actor it stopped has
+                // unregistered (they are parked before `unregister` until a `u:` releases them)
+                let clients = self.clients.clone();
+                self.rt.spawn(async move { clients.shutdown().await });
+                self.settle();
+                1
             }
         }
     }
